@@ -32,6 +32,7 @@ def Ev.isBody : Ev → Bool
   | .added _ => true
   | .removed _ => true
   | .raised => true
+  | .mutated => true
   | _ => false
 
 theorem runActs_trace (v : Variant) (acts : List Act) : ∀ st : St,
@@ -73,6 +74,22 @@ theorem runActs_trace (v : Variant) (acts : List Act) : ∀ st : St,
         obtain ⟨ext, h1, h2, h3⟩ := ih { st with all := l }
         exact ⟨ext, by simp only []; rw [h1], h2, by simp only []; rw [h3]⟩
     | raise => exact ⟨[.raised], by simp [runActs, St.push], by simp [Ev.isBody], rfl⟩
+    | setPort p =>
+      obtain ⟨ext, h1, h2, h3⟩ := ih ({ st with pk := (p, st.pk.2) }.push .mutated)
+      refine ⟨.mutated :: ext, ?_, ?_, ?_⟩
+      · simp only [runActs]; rw [h1]; simp [St.push]
+      · intro e he; cases he with
+        | head => rfl
+        | tail _ h => exact h2 e h
+      · simp only [runActs]; rw [h3]; rfl
+    | setChan c =>
+      obtain ⟨ext, h1, h2, h3⟩ := ih ({ st with pk := (st.pk.1, c) }.push .mutated)
+      refine ⟨.mutated :: ext, ?_, ?_, ?_⟩
+      · simp only [runActs]; rw [h1]; simp [St.push]
+      · intro e he; cases he with
+        | head => rfl
+        | tail _ h => exact h2 e h
+      · simp only [runActs]; rw [h3]; rfl
 
 theorem invoke_trace (v : Variant) (beh : Beh) (st : St) (e : Ev) :
     ∃ ext, (invoke v beh st e).1.trace = st.trace ++ e :: ext ∧ (∀ x ∈ ext, x.isBody = true) ∧
@@ -306,6 +323,8 @@ theorem runActs_noRaise (v : Variant) : ∀ (acts : List Act) (st : St), NoRaise
     | addAll c => simp only [runActs]; exact ih _ hr
     | removeAll c => exact absurd rfl (ha.2 c)
     | raise => exact absurd rfl ha.1
+    | setPort p => simp only [runActs]; exact ih _ hr
+    | setChan c => simp only [runActs]; exact ih _ hr
 
 /-- events appended by `Caller.call` -/
 def Ev.isCaller : Ev → Bool
@@ -367,10 +386,10 @@ theorem asCall_caller : ∀ e : Ev, e.isCaller = true → e.asCall = none := by
 theorem afterAll_proj {α : Type} (f : Ev → Option α) (hf : ∀ e, e.isCaller = true → f e = none)
     (v : Variant) (beh : Beh) (st : St) (hdr : Nat) :
     (afterAll v beh st hdr).trace.filterMap f = st.trace.filterMap f ++ (f (.pkt hdr)).toList := by
-  obtain ⟨ext, h1, h2⟩ := callerGo_trace v beh (st.push (.pkt hdr)).all (st.push (.pkt hdr))
+  obtain ⟨ext, h1, h2⟩ := callerGo_trace v beh (st.recv hdr).all (st.recv hdr)
   unfold afterAll callerCall
   rw [h1, List.filterMap_append, filterMap_caller f hf ext h2]
-  simp only [St.push, List.filterMap_append, List.append_nil]
+  simp only [St.recv, List.filterMap_append, List.append_nil]
   cases hf' : f (.pkt hdr) <;> simp [hf']
 
 theorem getLast_push (st : St) (e : Ev) : (st.push e).trace.getLast? = some e := by
@@ -406,7 +425,7 @@ theorem handlePacket_dead_of_dead (v : Variant) (beh : Beh) (st : St) (hdr : Nat
     handlePacket v beh st hdr = st := by
   simp [handlePacket, h]
 
-theorem handlePacket_deliveries (v : Variant) (hv : v.snapDispatch = true) (beh : Beh) (st : St) (hdr : Nat)
+theorem handlePacket_deliveries (v : Variant) (hv : v.snapDispatch = true) (hc : v.capturedHeader = true) (beh : Beh) (st : St) (hdr : Nat)
     (halive : st.dead = false) :
     deliveries (handlePacket v beh st hdr).trace = deliveries st.trace ++ Ev.pkt hdr ::
       (if (afterAll v beh st hdr).dead then []
@@ -416,11 +435,11 @@ theorem handlePacket_deliveries (v : Variant) (hv : v.snapDispatch = true) (beh 
   simp only [handlePacket, halive]
   by_cases hd : (afterAll v beh st hdr).dead = true
   · simp [hd, h1]
-  · simp only [hd, dispatch, hv, Bool.false_eq_true, if_false, if_true]
+  · simp only [hd, dispatch, hv, hc, Bool.false_eq_true, if_false, if_true]
     rw [dispatchSnap_deliveries, h1]
     simp
 
-theorem run_deliveries (v : Variant) (hv : v.snapDispatch = true) (beh : Beh) :
+theorem run_deliveries (v : Variant) (hv : v.snapDispatch = true) (hc : v.capturedHeader = true) (beh : Beh) :
     ∀ (hdrs : List Nat) (st : St), (∀ h ∈ hdrs, h < 256) →
       deliveries (run v beh st hdrs).trace = deliveries st.trace ++ expectedDeliveries v beh st hdrs := by
   intro hdrs
@@ -438,11 +457,11 @@ theorem run_deliveries (v : Variant) (hv : v.snapDispatch = true) (beh : Beh) :
         intro l; cases l <;> simp [expectedDeliveries, hd]
       rw [this, this]
     · have hd' : st.dead = false := by simpa using hd
-      rw [handlePacket_deliveries v hv beh st h hd']
+      rw [handlePacket_deliveries v hv hc beh st h hd']
       simp only [expectedDeliveries, hd', filter_matches_eq_spec _ hh]
       simp
 
-theorem handlePacket_pkts (v : Variant) (hv : v.snapDispatch = true) (beh : Beh) (st : St) (hdr : Nat)
+theorem handlePacket_pkts (v : Variant) (hv : v.snapDispatch = true) (hc : v.capturedHeader = true) (beh : Beh) (st : St) (hdr : Nat)
     (halive : st.dead = false) :
     pktsOf (handlePacket v beh st hdr).trace = pktsOf st.trace ++ [hdr] := by
   have h1 : pktsOf (afterAll v beh st hdr).trace = pktsOf st.trace ++ [hdr] := by
@@ -450,21 +469,21 @@ theorem handlePacket_pkts (v : Variant) (hv : v.snapDispatch = true) (beh : Beh)
   simp only [handlePacket, halive]
   by_cases hd : (afterAll v beh st hdr).dead = true
   · simp [hd, h1]
-  · simp only [hd, dispatch, hv, Bool.false_eq_true, if_false, if_true]
+  · simp only [hd, dispatch, hv, hc, Bool.false_eq_true, if_false, if_true]
     rw [dispatchSnap_pkts, h1]
 
-theorem handlePacket_alive (v : Variant) (hv : v.snapDispatch = true) (beh : Beh)
+theorem handlePacket_alive (v : Variant) (hv : v.snapDispatch = true) (hc : v.capturedHeader = true) (beh : Beh)
     (hq : AllPacketCallbacksQuiet beh) (st : St) (hdr : Nat) (halive : st.dead = false) :
     (handlePacket v beh st hdr).dead = false := by
   have h1 : (afterAll v beh st hdr).dead = false := by
     unfold afterAll callerCall
     rw [(callerGo_quiet v beh hq _ _).1]
     exact halive
-  simp only [handlePacket, halive, h1, dispatch, hv]
+  simp only [handlePacket, halive, h1, dispatch, hv, hc]
   simp only [Bool.false_eq_true, if_false, if_true]
   rw [dispatchSnap_dead]; exact h1
 
-theorem run_processes_all (v : Variant) (hv : v.snapDispatch = true) (beh : Beh)
+theorem run_processes_all (v : Variant) (hv : v.snapDispatch = true) (hc : v.capturedHeader = true) (beh : Beh)
     (hq : AllPacketCallbacksQuiet beh) : ∀ (hdrs : List Nat) (st : St), st.dead = false →
       (run v beh st hdrs).dead = false ∧ pktsOf (run v beh st hdrs).trace = pktsOf st.trace ++ hdrs := by
   intro hdrs
@@ -472,9 +491,9 @@ theorem run_processes_all (v : Variant) (hv : v.snapDispatch = true) (beh : Beh)
   | nil => intro st h; simp [run, h]
   | cons h hs ih =>
     intro st halive
-    have := ih (handlePacket v beh st h) (handlePacket_alive v hv beh hq st h halive)
+    have := ih (handlePacket v beh st h) (handlePacket_alive v hv hc beh hq st h halive)
     simp only [run, List.foldl_cons] at this ⊢
-    rw [this.2, handlePacket_pkts v hv beh st h halive]
+    rw [this.2, handlePacket_pkts v hv hc beh st h halive]
     exact ⟨this.1, by simp⟩
 
 /-! ### packet objects: the "no packet" test -/
@@ -510,25 +529,25 @@ theorem dispatchSnap_allCalls (v : Variant) (beh : Beh) (hdr : Nat) : ∀ (rs : 
     · exact ih st
 
 /-- one packet: the all-packet callbacks registered when it is taken all get it, once, in order -/
-theorem handlePacket_allCalls (v : Variant) (hv : v.snapDispatch = true) (beh : Beh)
+theorem handlePacket_allCalls (v : Variant) (hv : v.snapDispatch = true) (hc : v.capturedHeader = true) (beh : Beh)
     (hq : AllPacketCallbacksQuiet beh) (st : St) (hdr : Nat) (halive : st.dead = false) :
     allCallsOf (handlePacket v beh st hdr).trace = allCallsOf st.trace ++ st.all := by
-  have hq' := callerGo_quiet v beh hq (st.push (.pkt hdr)).all (st.push (.pkt hdr))
+  have hq' := callerGo_quiet v beh hq (st.recv hdr).all (st.recv hdr)
   have h1 : allCallsOf (afterAll v beh st hdr).trace = allCallsOf st.trace ++ st.all := by
-    unfold afterAll callerCall; rw [hq'.2]; simp [St.push, allCallsOf, Ev.asAllCall]
+    unfold afterAll callerCall; rw [hq'.2]; simp [St.recv, allCallsOf, Ev.asAllCall]
   have h2 : (afterAll v beh st hdr).dead = false := by
     unfold afterAll callerCall; rw [hq'.1]; exact halive
-  simp only [handlePacket, halive, h2, dispatch, hv, Bool.false_eq_true, if_false, if_true]
+  simp only [handlePacket, halive, h2, dispatch, hv, hc, Bool.false_eq_true, if_false, if_true]
   rw [dispatchSnap_allCalls, h1]
 
-theorem handlePacket_ext (v : Variant) (hv : v.snapDispatch = true) (beh : Beh) (st : St) (hdr : Nat) :
+theorem handlePacket_ext (v : Variant) (hv : v.snapDispatch = true) (hc : v.capturedHeader = true) (beh : Beh) (st : St) (hdr : Nat) :
     ∃ ext, (handlePacket v beh st hdr).trace = st.trace ++ ext := by
   unfold handlePacket
   by_cases hd : st.dead = true
   · exact ⟨[], by simp [hd]⟩
-  · obtain ⟨e1, h1, _⟩ := callerGo_trace v beh (st.push (.pkt hdr)).all (st.push (.pkt hdr))
+  · obtain ⟨e1, h1, _⟩ := callerGo_trace v beh (st.recv hdr).all (st.recv hdr)
     have ha : (afterAll v beh st hdr).trace = st.trace ++ (Ev.pkt hdr :: e1) := by
-      unfold afterAll callerCall; rw [h1]; simp [St.push]
+      unfold afterAll callerCall; rw [h1]; simp [St.recv]
     have hd' : st.dead = false := by simpa using hd
     simp only [hd', Bool.false_eq_true, if_false]
     by_cases hd2 : (afterAll v beh st hdr).dead = true
@@ -536,7 +555,7 @@ theorem handlePacket_ext (v : Variant) (hv : v.snapDispatch = true) (beh : Beh) 
     · obtain ⟨e2, h2⟩ := dispatchSnap_ext v beh hdr (afterAll v beh st hdr).regs (afterAll v beh st hdr)
       refine ⟨Ev.pkt hdr :: e1 ++ e2, ?_⟩
       have hd2' : (afterAll v beh st hdr).dead = false := by simpa using hd2
-      simp only [hd2', Bool.false_eq_true, if_false, dispatch, hv, if_true]
+      simp only [hd2', Bool.false_eq_true, if_false, dispatch, hv, hc, if_true]
       rw [h2, ha]; simp
 
 /-! ### callbacks that only raise leave the registry alone -/
@@ -569,28 +588,28 @@ theorem dispatchSnap_static (v : Variant) (beh : Beh) (hs : ∀ tr, ∀ a ∈ be
 
 
 theorem afterAll_no_all (v : Variant) (beh : Beh) (st : St) (hdr : Nat) (hall : st.all = []) :
-    afterAll v beh st hdr = st.push (.pkt hdr) := by
-  simp [afterAll, callerCall, St.push, hall, callerGo]
+    afterAll v beh st hdr = st.recv hdr := by
+  simp [afterAll, callerCall, St.recv, hall, callerGo]
 
-theorem handlePacket_static (v : Variant) (hv : v.snapDispatch = true) (beh : Beh)
+theorem handlePacket_static (v : Variant) (hv : v.snapDispatch = true) (hc : v.capturedHeader = true) (beh : Beh)
     (hs : ∀ tr, ∀ a ∈ beh tr, a = Act.raise) (st : St) (hdr : Nat) (halive : st.dead = false)
     (hall : st.all = []) :
     (handlePacket v beh st hdr).regs = st.regs ∧ (handlePacket v beh st hdr).all = [] ∧
     (handlePacket v beh st hdr).dead = false ∧
     deliveries (handlePacket v beh st hdr).trace
       = deliveries st.trace ++ Ev.pkt hdr :: (st.regs.filter (·.matches hdr)).map Ev.call := by
-  have hd := handlePacket_deliveries v hv beh st hdr halive
+  have hd := handlePacket_deliveries v hv hc beh st hdr halive
   rw [afterAll_no_all v beh st hdr hall] at hd
-  simp only [St.push, halive, Bool.false_eq_true, if_false] at hd
+  simp only [St.recv, halive, Bool.false_eq_true, if_false] at hd
   refine ⟨?_, ?_, ?_, hd⟩
   all_goals
-    simp only [handlePacket, halive, afterAll_no_all v beh st hdr hall, dispatch, hv, St.push,
+    simp only [handlePacket, halive, afterAll_no_all v beh st hdr hall, dispatch, hv, hc, St.recv,
       Bool.false_eq_true, if_false, if_true]
   · rw [(dispatchSnap_static v beh hs hdr _ _).1]
   · rw [(dispatchSnap_static v beh hs hdr _ _).2]; exact hall
   · rw [dispatchSnap_dead]
 
-theorem run_static (v : Variant) (hv : v.snapDispatch = true) (beh : Beh)
+theorem run_static (v : Variant) (hv : v.snapDispatch = true) (hc : v.capturedHeader = true) (beh : Beh)
     (hs : ∀ tr, ∀ a ∈ beh tr, a = Act.raise) : ∀ (hdrs : List Nat) (st : St), st.dead = false → st.all = [] →
       (∀ h ∈ hdrs, h < 256) →
       deliveries (run v beh st hdrs).trace = deliveries st.trace ++
@@ -601,7 +620,7 @@ theorem run_static (v : Variant) (hv : v.snapDispatch = true) (beh : Beh)
   | nil => intro st h _ _; simp [run, h]
   | cons h hs' ih =>
     intro st halive hall hb
-    obtain ⟨h1, h2, h3, h4⟩ := handlePacket_static v hv beh hs st h halive hall
+    obtain ⟨h1, h2, h3, h4⟩ := handlePacket_static v hv hc beh hs st h halive hall
     have := ih (handlePacket v beh st h) h3 h2 (fun x hx => hb x (by simp [hx]))
     simp only [run, List.foldl_cons] at this ⊢
     rw [this.1, this.2.1, this.2.2, h4, h1, filter_matches_eq_spec _ (hb h (by simp))]
